@@ -115,12 +115,14 @@ def generate(tier):
                         yield (kind, ctx, wh, rid, impls, mode, item_text(kind, ctx, wh, ms, markers, markers1))
 
 
-def check(v, tier):
+def check(v, tier, only=None):
     binary = xp.build_xp()
     xp.init_canon(binary)
     global P
     P = K.TRAIT_PATH
     reqs = list(generate(tier))
+    if only:
+        reqs = [r_ for r_ in reqs if 'C12|%s|%s|%s|%s|%s' % (r_[0], r_[1][0], r_[2][0], r_[3], r_[5][0]) == only]
     # canonical forms of everything the oracle compares against, produced by the same tokeniser
     texts = set()
     for c in CONTEXTS:
@@ -136,7 +138,8 @@ def check(v, tier):
     canon = dict(zip(tl, xp.retokenise(binary, tl)))
     res = xp.expand_all(binary, [r[-1] for r in reqs])
     from .. import realmacro
-    realmacro.conformance(v, binary, [r[-1] for r in reqs], res, limit=None if tier != 'quick' else 6000)
+    if not only:
+        realmacro.conformance(v, binary, [r[-1] for r in reqs], res, limit=None if tier != 'quick' else 6000)
     nontriv = 0
     for (kind, ctx, wh, rid, impls, mode, src), r in zip(reqs, res):
         key = 'C12|%s|%s|%s|%s|%s' % (kind, ctx[0], wh[0], rid, mode[0])
@@ -202,9 +205,9 @@ def check(v, tier):
         if problems:
             v.violation(case, ' ;; '.join(problems[:3]))
     v.cov['distinct_nontrivial'] = nontriv
-    for rq in reqs[::max(1, len(reqs) // 6)][:6]:
+    for rq in reqs[::max(1, len(reqs) // 6)][:6] if reqs else []:
         v.sample({'kind': rq[0], 'generics': rq[1][1], 'where': rq[2][1], 'request': rq[3], 'bound': rq[5][1], 'input': rq[6]})
-    guard(len(reqs) > 2000, 'too few C12 states')
+    guard(only or len(reqs) > 2000, 'too few C12 states')
     return v.finish('shape {named struct, tuple struct, enum, union} x generics context {none, <T>, <T,U>, lifetime + inline bounds + const, defaults, const parameter '
                     'before type parameters, lifetimes only, bounded defaults} x user where-clause {none, one, two predicates incl. a higher-ranked one} x request '
                     '{every trait, coupled pairs, stand-alone companions, Default with new, Into with one/two targets, Deref + DerefMut} x bound spelling {absent, '
